@@ -1,6 +1,7 @@
 """C11 correspondence: real generate_partitions / chunk_aligned_slices vs extracted model,
 and the extracted checker check_C11 on the implementation's own output."""
 import itertools
+import os
 from types import SimpleNamespace
 
 from lib.common import opt
@@ -71,6 +72,23 @@ def run_cases(ctx, cases):
         chk = ctx.model.batch(
             [(1101, [nr, cs, np_, opt(mc), o if isinstance(o, list) else []]) for (nr, cs, np_, mc), o in zip(cases, outs)]
         )
+        # the translator's own output, extracted (validates translator + Base/Prims.v); skipped when it does not build
+        gen = None
+        if os.path.exists(ctx.genmodel.binary) and len(cases) < 200000:
+            try:
+                if fname == "generate_partitions":
+                    gen = ctx.genmodel.batch([(10, [nr, cs, np_, opt(mc)]) for nr, cs, np_, mc in cases])
+                else:
+                    gen = ctx.genmodel.batch([(11, [cs, nr, np_, opt(mc)]) for nr, cs, np_, mc in cases])
+            except RuntimeError:
+                gen = None
+        if gen is not None:
+            for (nr, cs, np_, mc), o, g in zip(cases, outs, gen):
+                want = [1, [list(x) for x in o]] if isinstance(o, list) else None
+                if (want is not None and g != want) or (want is None and (not isinstance(g, list) or g[0] != 0)):
+                    ctx.disagree(dict(fn=fname, num_records=nr, chunk_size=cs, num_partitions=np_, max_chunks=mc), o, g,
+                                 f"{fname}: the translated definition (Gen) differs from the real function")
+                    break
         for (nr, cs, np_, mc), o, m, c in zip(cases, outs, model, chk):
             doc = dict(fn=fname, num_records=nr, chunk_size=cs, num_partitions=np_, max_chunks=mc)
             nchunks = -(-nr // cs)
@@ -85,9 +103,66 @@ def run_cases(ctx, cases):
                 ctx.fail(doc, dict(implementation_output=o), f"{fname}{(nr, cs, np_, mc)} -> {o}: not an exact chunk-aligned cover (check_C11 = false)")
 
 
+def plink_slices(ctx):
+    """the slices the PLINK conversion actually hands to its workers, end to end: filesets large enough
+    for zarr's automatic chunking of 1-d arrays to differ from the variants chunk size"""
+    import shutil
+
+    import numpy as np
+    from bio2zarr import core, plink
+
+    d = os.path.join(ctx.work, "c11_plink")
+    os.makedirs(d, exist_ok=True)
+    configs = [(100_000, 2, None, 2), (2500, 3, 1000, 3), (37, 5, 4, 1)]
+    if not ctx.quick:
+        configs += [(250_000, 1, None, 4), (100_003, 2, 9999, 2)]
+    for m, n, vcs, workers in configs:
+        rs = np.random.RandomState(m + n)
+        prefix = os.path.join(d, f"p{m}")
+        with open(prefix + ".bed", "wb") as f:
+            f.write(bytes([108, 27, 1]))
+            f.write(rs.randint(0, 256, size=m * ((n + 3) // 4)).astype(np.uint8).tobytes())
+        with open(prefix + ".fam", "w") as f:
+            for s_ in range(n):
+                f.write(f"f{s_} i{s_} 0 0 0 -9\n")
+        with open(prefix + ".bim", "w") as f:
+            f.write("".join(f"1\tsnp{v}\t0\t{100 + v}\tA\tC\n" for v in range(m)))
+        recorded = []
+        orig = core.ParallelWorkManager.submit
+
+        def submit(self, *args, **kw):
+            if len(args) >= 5 and getattr(args[0], "__name__", "") == "encode_genotypes_slice":
+                recorded.append((int(args[3]), int(args[4])))
+            return orig(self, *args, **kw)
+
+        core.ParallelWorkManager.submit = submit
+        doc = dict(fn="plink.convert", num_records=m, samples=n, chunk_size=vcs, worker_processes=workers)
+        ctx.case(doc, nontrivial=True)
+        ctx.count("plink-e2e-slices")
+        err = None
+        try:
+            plink.convert(prefix + ".bed", prefix + ".vcz", variants_chunk_size=vcs, worker_processes=workers)
+        except BaseException as e:  # noqa: BLE001
+            err = f"{type(e).__name__}: {e}"[:200]
+        finally:
+            core.ParallelWorkManager.submit = orig
+        cs = vcs or 10_000
+        c = ctx.model.call(1101, [m, cs, max(1, workers * 4), [], [list(x) for x in recorded]])
+        if c != 1:
+            ctx.fail(doc, dict(slices=recorded[:12], error=err), f"plink.convert({m} variants, chunk size {cs}, {workers} workers) hands its workers the slices {recorded[:6]}...: not an exact chunk-aligned cover (check_C11 = false)")
+        elif err is not None:
+            ctx.fail(doc, dict(error=err), "plink.convert raised")
+        for ext in (".bed", ".bim", ".fam"):
+            os.remove(prefix + ext)
+        shutil.rmtree(prefix + ".vcz", ignore_errors=True)
+        ctx.traces_validated += 1
+    shutil.rmtree(d, ignore_errors=True)
+
+
 def run(ctx):
     cases = list(gen_cases(ctx))
     run_cases(ctx, cases)
+    plink_slices(ctx)
     # outside the input space: zero records must be rejected (theorem zero_records_rejected)
     fns = impl_fns()
     for cs, np_ in [(1, 1), (5, 3), (1000, 7)]:
